@@ -128,6 +128,8 @@ def universe_worker(job):
         w7.set_host(base, host)
         rc, out, log = bob(U, v, ['--upload'])
         if rc != 0:
+            # an upstream change of a file the user has modified locally: the update is refused (user work is never overwritten)
+            if dirty and n > 0 and 'merge --ff-only' in out: break
             viol.append(('uploader-build-fails', 'after %s: %s' % (a, out[-300:]))); break
         if not dirty:
             uploaded.add((c01.vec_key(v), n, host))
